@@ -162,6 +162,14 @@ impl<R> NsReader<R> {
         }
     }
 
+    /// Ends the namespace scope of the element whose closing tag was just consumed
+    /// by one of the `read_to_end*` / `read_text` methods: they read the `End` event
+    /// directly from the underlying reader, so nobody else would pop the scope that
+    /// was pushed by the corresponding start tag
+    pub(super) fn end_scope(&mut self) {
+        self.ns_resolver.pop();
+    }
+
     pub(super) fn process_event<'i>(&mut self, event: Result<Event<'i>>) -> Result<Event<'i>> {
         match event {
             Ok(Event::Start(e)) => {
@@ -604,7 +612,9 @@ impl<R: BufRead> NsReader<R> {
     pub fn read_to_end_into(&mut self, end: QName, buf: &mut Vec<u8>) -> Result<Span> {
         // According to the https://www.w3.org/TR/xml11/#dt-etag, end name should
         // match literally the start name. See `Config::check_end_names` documentation
-        self.reader.read_to_end_into(end, buf)
+        let span = self.reader.read_to_end_into(end, buf)?;
+        self.end_scope();
+        Ok(span)
     }
 }
 
@@ -840,7 +850,9 @@ impl<'i> NsReader<&'i [u8]> {
     pub fn read_to_end(&mut self, end: QName) -> Result<Span> {
         // According to the https://www.w3.org/TR/xml11/#dt-etag, end name should
         // match literally the start name. See `Config::check_end_names` documentation
-        self.reader.read_to_end(end)
+        let span = self.reader.read_to_end(end)?;
+        self.end_scope();
+        Ok(span)
     }
 
     /// Reads content between start and end tags, including any markup. This
@@ -910,7 +922,9 @@ impl<'i> NsReader<&'i [u8]> {
     /// [`decoder()`]: Reader::decoder()
     #[inline]
     pub fn read_text(&mut self, end: QName) -> Result<Cow<'i, str>> {
-        self.reader.read_text(end)
+        let text = self.reader.read_text(end)?;
+        self.end_scope();
+        Ok(text)
     }
 }
 
